@@ -430,14 +430,24 @@ def e2e_files(spec):
     files = {}
     for r, fam in enumerate(spec["ranks"]):
         rk = Rank(r, float(spec.get("freq", 512)), 1_000_000_000.0, 512 * (1000 + 77 * r))
+        hosted = []
         for k, (s, e) in enumerate(fam):
             s, e = float(Fraction(s)), float(Fraction(e))
+            mode = spec.get("host_prep")
+            if mode == "all" or (mode == "mixed" and k % 2 == 0):
+                # a Prep slice WITHOUT device time stamps (host-only trace): an X event with plain args
+                hosted.append({"ph": "X", "name": f"h{k}_{r} Cmpt Prep", "pid": r, "tid": 9000 + k,
+                               "ts": 1_000_000_000.0 + s, "dur": e - s, "args": {"uid": f"r{r}h{k}"}})
+                continue
             # TS1..TS5: [issue, prep start, prep end = exec start, exec end, done]
             ts5 = [s, s, e, e + 3, e + 4]
             rk.dev_event(f"k{k}_{r} Cmpt Prep", TID_PREP + k, ts5)
             rk.dev_event(f"k{k}_{r} Cmpt Exec", TID_EXEC + k, ts5)
         rk.host_event("AIU Roundtrip", 77, 0.0, 400.0)
-        files[f"trace_rank_{r}.json"] = rk.event_list()
+        # host-only slices are listed thread by thread (two threads taking turns), each thread in start order: the
+        # file as a whole is not in start order
+        hosted.sort(key=lambda e: e["ts"])
+        files[f"trace_rank_{r}.json"] = rk.event_list() + hosted[0::2] + hosted[1::2]
     return files
 
 
@@ -467,8 +477,13 @@ def e2e_eval(spec, verbose=False):
     for tag, r in (("--keep_prep", rk), ("default", rd)):
         cnt = [e for e in r["events"] if e.get("ph") == "C" and e.get("name") == "ConcurrentPreps"]
         info["samples_" + tag] = len(cnt)
-        for p in sorted({e["pid"] for e in slices_keep} | {e["pid"] for e in cnt}):
-            ivs = [(Fraction(e["ts"]), Fraction(e["ts"]) + Fraction(e["dur"])) for e in slices_keep if e["pid"] == p]
+        # the rank of a slice: host-side slices are shown in process rank+1000 of the refined view and carry their
+        # rank as an argument; counters are exported on pid = rank
+        def rank_of(e):
+            a = e.get("args")
+            return a["rank"] if isinstance(a, dict) and isinstance(a.get("rank"), int) else e["pid"]
+        for p in sorted({rank_of(e) for e in slices_keep} | {e["pid"] for e in cnt}):
+            ivs = [(Fraction(e["ts"]), Fraction(e["ts"]) + Fraction(e["dur"])) for e in slices_keep if rank_of(e) == p]
             samples = [(Fraction(e["ts"]), e["args"]["Concurrency"]) for e in cnt if e["pid"] == p]
             v = series_oracle(ivs, samples)
             if verbose:
@@ -496,7 +511,18 @@ def gen_e2e(ctx: Ctx):
         for _r in range(R):
             fam = random_family(rng, rng.randint(1, 6), pool)     # equal starts, equal ends, touching, nesting
             ranks.append([(str(Fraction(s)), str(Fraction(e))) for s, e in fam])
-        yield {"kind": "e2e", "spec": {"ranks": ranks, "freq": rng.choice([256, 512, 1024])}}
+        spec = {"ranks": ranks, "freq": rng.choice([256, 512, 1024])}
+        u = rng.random()
+        if u < 0.3:
+            # boundaries off the nanosecond grid (multiples of 1/32 us: exact in cycles at every generated frequency)
+            spec["ranks"] = [[(str(Fraction(s) + Fraction(rng.randint(0, 31), 32)), str(Fraction(e) + Fraction(rng.randint(0, 31), 32)))
+                              for s, e in fam] for fam in ranks]
+            spec["ranks"] = [[(s, e) for s, e in fam if Fraction(s) < Fraction(e)] or [("10", "20")] for fam in spec["ranks"]]
+        elif u < 0.45:
+            spec["host_prep"] = "all"
+        elif u < 0.6:
+            spec["host_prep"] = "mixed"
+        yield {"kind": "e2e", "spec": spec}
 
 
 # ---------------------------------------------------------------------------------------------
